@@ -212,6 +212,30 @@ def walk_cases(cmd):
                 yield a
 
 
+def flag_combo_cases(cmd):
+    """thorough: all 2^k combinations of the one-bit fields of a command (other fields minimal)."""
+    import itertools
+
+    flags = [arg for arg, f in cmd.fmap.items() if f and gen.std_width(cmd, arg) == 1]
+    if not flags or len(flags) > 8:
+        return
+    base = next(iter(walk_cases(cmd)), None)
+    if base is None:
+        return
+    for arg, f in cmd.fmap.items():
+        if f and isinstance(base.get(arg), int) and arg not in cmd.pos:
+            base.pop(arg, None)
+    for p in cmd.pos:
+        if isinstance(base.get(p), int) and p != "blocksize":
+            base[p] = 0
+    for combo in itertools.product((0, 1), repeat=len(flags)):
+        a = dict(base)
+        a.update(dict(zip(flags, combo)))
+        if cmd.name.startswith("atapassthrough"):
+            a["t_length"] = 0
+        yield a
+
+
 def _walk_ok_for_ctor(cmd, a):
     """the ctor path allocates buffers: keep the walk there below the allocation bound."""
     for k, v in a.items():
@@ -259,6 +283,12 @@ def run(ctx):
                 if path == "marshall" and ((cmd.name, table) in OPCODE_ONLY or cmd.name.startswith("extendedcopy")):
                     continue
                 common.run_one(ctx, name + ":" + path + ":walk", a, make_check(cmd, table, path))
+        if ctx.thorough and table == cmd.tables()[0]:
+            for j, a in enumerate(flag_combo_cases(cmd)):
+                if ctx.mine(j):
+                    common.run_one(ctx, name + ":ctor:flags", _fix_data(cmd, a), make_check(cmd, table, "ctor"))
+    if ctx.thorough:
+        ctx.exhaustive_parts.append("all 2^k combinations of the one-bit fields of every command")
     ctx.exhaustive_parts.append("single-bit walk: every CDB field of every command, every bit set alone and "
                                 "cleared from all-ones (%s)" % ("all tables" if ctx.thorough else "first table of each command"))
 
